@@ -418,10 +418,58 @@ def t_extra(arg, acc):
             for how in ('geom', 'mid'):
                 for via in ('setter', 'resample'):
                     chk_regrid({'kind': 'regrid', 'wu': wu, 'vu': vu, 'how': how, 'via': via}, acc, seed)
+            chk_sample_units({'kind': 'sampleunits', 'wu': wu, 'vu': vu}, acc, seed)
             for wu2 in ('m', 'um', 'nm', 'angstrom'):
                 chk_arith_units({'kind': 'arith', 'wu1': wu, 'wu2': wu2, 'vu': vu}, acc, seed)
         for band in ('U', 'V', 'R', 'J', 'K'):      # photon units only: the magnitude scaling is defined on photon fluxes
             chk_vegamag({'kind': 'vegamag', 'band': band, 'wu0': wu, 'vu': 'photlam'}, acc, seed)
+
+
+def chk_planck_int(case, acc, seed):
+    """integer-typed wavelength arrays are the same wavelengths"""
+    import sys
+    rad = sys.modules['lentil.radiometry']
+    wu, vu, T = case['wu'], case['vu'], case['T']
+    ints = {'m': [1, 2, 3], 'um': [1, 2, 30], 'nm': [400, 500, 9000], 'angstrom': [4000, 5000, 60000]}[CANON[wu]]
+    for dt in (np.int64, np.int32, np.uint16):
+        wi = np.array(ints, dtype=dt)
+        wf_ = np.array(ints, dtype=float)
+        for fn in (rad.planck_radiance, rad.planck_exitance):
+            try:
+                a = np.asarray(fn(wi, T if CANON[wu] != 'm' else 0.01, wu, vu), float)
+                b = np.asarray(fn(wf_, T if CANON[wu] != 'm' else 0.01, wu, vu), float)
+            except Exception as e:
+                acc.violation(f'planck:integer-wavelengths:raises:{type(e).__name__}', dict(case, dtype=str(np.dtype(dt))), repr(e))
+                continue
+            if not np.allclose(a, b, rtol=1e-12, atol=0, equal_nan=False):
+                acc.violation('planck:integer-wavelengths', dict(case, dtype=str(np.dtype(dt)), fn=fn.__name__), f'{fn.__name__}({wi.tolist()} as {np.dtype(dt)}) = {a}, as float = {b}')
+    acc.cls('planck-int')
+    acc.case(case, outcome='planck-int')
+
+
+def chk_sample_units(case, acc, seed):
+    """sampling a per-wavelength density in another wavelength unit gives the density per that unit at those wavelengths"""
+    wu, vu = case['wu'], case['vu']
+    lam_m = np.array([4.2e-7, 5e-7, 6.5e-7, 8e-7])
+    for wu2 in ('m', 'um', 'nm', 'angstrom'):
+        s = start_spectrum(wu, vu, seed)
+        ref_lam, ref_v = si(s)
+        try:
+            v = np.asarray(s.sample(lam_m / IN_M[wu2], waveunit=wu2), float)
+        except Exception as e:
+            acc.violation(f'sample-units:raises:{type(e).__name__}', dict(case, wu2=wu2), repr(e))
+            continue
+        got = v if vu is None else to_wlam_per_m(v / IN_M[wu2], vu, lam_m)
+        want = np.interp(lam_m, ref_lam, ref_v) if vu in (None, 'wlam') else None
+        if want is None:
+            # interpolate in the spectrum's own flux unit, then express physically
+            s0 = start_spectrum(wu, vu, seed)
+            v0 = np.interp(lam_m, np.asarray(s0.wave, float) * IN_M[wu], np.asarray(s0.value, float))
+            want = to_wlam_per_m(v0 / IN_M[wu], vu, lam_m)
+        if not np.allclose(got, want, rtol=1e-9):
+            acc.violation('sample-units:density', dict(case, wu2=wu2), f'a {vu} spectrum held in {wu}, sampled in {wu2}, is {np.max(got / want):.6g} times the spectrum')
+    acc.cls('sample-units')
+    acc.case(case, outcome='sample-units')
 
 
 def chk_blackbody(case, acc, seed):
@@ -464,11 +512,26 @@ def chk_blackbody(case, acc, seed):
             if not np.allclose(got, want, rtol=1e-9, atol=0):
                 acc.violation('blackbody:sample-after-to', dict(case, vu2=vu2, wu2=wu2),
                               f'Blackbody({vu}).to({vu2}).sample in {wu2} / planck_radiance(valueunit={bb2.valueunit}) = {got / want}')
+    # a Blackbody whose values were edited is that edited spectrum: converting it preserves what it holds now
+    try:
+        bb3 = rad.Blackbody(wave, T, waveunit=wu, valueunit=vu)
+        bb3.value = 0.5 * np.asarray(bb3.value)
+        ref3 = si(bb3)
+        for tgt in (('um',) if CANON[wu] != 'um' else ('nm',)) + tuple(f_ for f_ in FNAMES if f_ != vu)[:1]:
+            bb3.to(tgt)
+            got3 = si(bb3)
+            if not (np.allclose(got3[0], ref3[0], rtol=1e-10) and np.allclose(got3[1], ref3[1], rtol=1e-9)):
+                acc.violation('blackbody:edited-then-to', dict(case, to=tgt), f'a Blackbody with halved values, converted to {tgt}, holds {np.max(got3[1] / ref3[1]):.6g} times the halved values')
+                break
+    except Exception as e:
+        acc.violation(f'blackbody:edited-then-to:raises:{type(e).__name__}', case, repr(e))
     acc.cls('blackbody')
     acc.case(case, outcome='blackbody')
 
 
 DISPATCH['blackbody'] = chk_blackbody
+DISPATCH['planckint'] = chk_planck_int
+DISPATCH['sampleunits'] = chk_sample_units
 
 
 def t_planck(arg, acc):
@@ -477,6 +540,7 @@ def t_planck(arg, acc):
             acc.transitions += 1
             chk_planck({'kind': 'planck', 'wu': wu, 'vu': vu, 'T': arg['T']}, acc, arg['seed'])
             chk_blackbody({'kind': 'blackbody', 'wu': wu, 'vu': vu, 'T': arg['T']}, acc, arg['seed'])
+            chk_planck_int({'kind': 'planckint', 'wu': wu, 'vu': vu, 'T': arg['T']}, acc, arg['seed'])
     for wu in ('m', 'um', 'nm', 'angstrom'):
         chk_wien_sb({'kind': 'wien', 'wu': wu, 'T': arg['T']}, acc, arg['seed'])
 
